@@ -57,7 +57,8 @@ def sig_with_meta(rng):
     registry = Apps()
     cons = []
     idx = []
-    kind = rng.choice(['check', 'unique_cond', 'unique_defer', 'index_cond', 'index_expr', 'index_plain', 'none'])
+    kind = rng.choice(['check', 'unique_cond', 'unique_defer', 'index_cond', 'index_expr', 'index_plain', 'none',
+                       'index_expr_list'])
     if kind == 'check':
         cons.append(models.CheckConstraint(check=values.gen_q(rng), name='chk1'))
     elif kind == 'unique_cond':
@@ -89,6 +90,13 @@ def sig_with_meta(rng):
     if a.upgrade_method == UpgradeMethod.MIGRATIONS:
         a.applied_migrations = ['0001_initial', '0002_more']
     msig = ModelSignature.from_model(m)
+    if kind == 'index_expr_list':
+        # expression-only indexes as a ChangeMeta('indexes', ...) evolution records them: a LIST of expressions
+        # and no fields (nothing here is a tuple, so finding F8 has no part in it)
+        from django.db.models.functions import Lower
+        from django_evolution.signature import IndexSignature
+        msig.add_index_sig(IndexSignature(fields=None, name='ix_expr_list', expressions=[F('a') + 1]))
+        msig.add_index_sig(IndexSignature(fields=None, name='ix_expr_lower', expressions=[Lower('b')]))
     if rng.random() < 0.3:
         # a many-to-many field that names its table
         from django_evolution.signature import FieldSignature
